@@ -34,6 +34,10 @@ ENVS = [
     ("foreign-qname/bundle", (("bun", "B1", ("C", "b1", Q("bn"))),), "B1", Q("zz"), "A"),
     # a prefix that PROV-JSON reserves as the key of the default namespace
     ("prefix-named-default", (("ns", "D", "default", "A"),), "D", S("default"), "A"),
+    # two bundles whose identifiers print alike (ex:b1) but differ in URI: the second was built on its own
+    ("two-bundles-printing-alike",
+     (("ns", "D", "ex", "A"), ("bun", "B1", ("A", "b1", S("ex"))), ("el", "B1", "entity", ("A", "in1", S("ex"))),
+      ("addb", "B2", ("B", "b1", Q("ex")))), "B2", Q("ex"), "B"),
     ("doc-and-bundle-records",
      (("ns", "D", "ex", "A"), ("el", "D", "entity", ("A", "top", S("ex"))), ("bun", "B1", ("A", "b1", S("ex")))),
      "B1", S("ex"), "A"),
